@@ -90,16 +90,21 @@ class GenesisCheck:
 
     # -- model ----------------------------------------------------------------
     def run_mc(self, tier, work):
-        cfg = {"quick": "MC_Genesis.cfg", "thorough": "MC_Genesis_big.cfg"}[tier]
-        t0 = time.time()
-        rc, out = vlib.run_tlc(work, self.spec, cfg, workers=max(4, vlib.NCPU - 4), heap="8g", timeout=2400)
-        g, d = vlib.tlc_counts(out)
-        err = vlib.tlc_error(out)
-        if err:
-            raise Inconclusive(f"Genesis.tla model checking failed on {cfg}: {err}\n{out[-1500:]}")
-        log(f"[mc] {cfg}: {g} generated / {d} distinct, ok ({time.time()-t0:.0f}s)")
-        return {"states": d, "transitions": g, "configs": [{"cfg": cfg, "generated": g, "distinct": d,
-                                                            "wall_s": round(time.time() - t0, 1)}]}
+        cfgs = {"quick": ["MC_Genesis.cfg", "MC_Genesis_ids1.cfg"],
+                "thorough": ["MC_Genesis_mid.cfg", "MC_Genesis_ids1.cfg", "MC_Genesis_big.cfg"]}[tier]
+        info = {"states": 0, "transitions": 0, "configs": []}
+        for cfg in cfgs:
+            t0 = time.time()
+            rc, out = vlib.run_tlc(work, self.spec, cfg, workers=max(4, vlib.NCPU // 2), heap="4g", timeout=2400)
+            g, d = vlib.tlc_counts(out)
+            err = vlib.tlc_error(out)
+            if err:
+                raise Inconclusive(f"Genesis.tla model checking failed on {cfg}: {err}\n{out[-1500:]}")
+            log(f"[mc] {cfg}: {g} generated / {d} distinct, ok ({time.time()-t0:.0f}s)")
+            info["states"] += d
+            info["transitions"] += g
+            info["configs"].append({"cfg": cfg, "generated": g, "distinct": d, "wall_s": round(time.time() - t0, 1)})
+        return info
 
     def self_test(self, work):
         """Binding self-test of the model: every planted defect must be found."""
@@ -111,12 +116,12 @@ class GenesisCheck:
             txt = re.sub(r'Defect = "[^"]*"', f'Defect = "{defect}"', base)
             txt = re.sub(r'DefectMod = "[^"]*"', f'DefectMod = "{mod}"', txt)
             open(os.path.join(work, cfg), "w").write(txt)
-            rc, out = vlib.run_tlc(work, self.spec, cfg, workers=2, heap="2g", timeout=900)
+            rc, out = vlib.run_tlc(work, self.spec, cfg, workers=2, heap="1g", timeout=900)
             err = vlib.tlc_error(out)
             return defect, mod, err, want
 
         found = {}
-        with ThreadPoolExecutor(max_workers=len(DEFECTS)) as ex:
+        with ThreadPoolExecutor(max_workers=3) as ex:
             for defect, mod, err, want in ex.map(one, DEFECTS):
                 if not err or err[0] != "invariant" or err[1] not in want:
                     raise Inconclusive(f"model self-test: planted defect {defect}@{mod} not reported as one of "
@@ -297,8 +302,17 @@ class GenesisCheck:
             log(f"KNOWN-FINDING: property={pid} {kf['description']}")
         nonempty = sorted(m for m in MODULES if ex_.get("nonempty_" + m, 0) > 0)
         empty = [m for m in MODULES if m not in nonempty]
-        # from recorded driver histories only (the scenarios always touch several modules)
-        log(f"[coverage] modules with durable objects in some round trip: {nonempty}; not exercised: {empty}")
+        # vacuity is judged on the recorded driver histories only (the scenarios always touch several modules)
+        by_driver = set()
+        with open(allf) as f:
+            for line in f:
+                if '"name":"GenesisRoundTrip"' in line[:300] and '"rec":"genesis_' not in line[:400]:
+                    e = json.loads(line)["ev"]
+                    if e.get("accepted"):
+                        by_driver |= {m for m, n in e["res"]["nobj"].items() if n > 0 and m != "token"}
+        by_driver = sorted(by_driver)
+        log(f"[coverage] modules with durable objects in some round trip: {nonempty} (from recorded drivers: {by_driver}; "
+            f"the native token alone does not count); not exercised: {empty}")
         samples = []
         with open(allf) as f:
             for line in f:
@@ -316,7 +330,8 @@ class GenesisCheck:
                     "continuations": ex_.get("continuation", 0), "recordings": len(recs),
                     "recorded_drivers": sorted({os.path.basename(r).split("-")[1] for r in recs}),
                     "recording_drivers_failed": [b for b, _ in failed],
-                    "modules_exercised": nonempty, "modules_not_exercised": empty, "drift_steps": res["drift"],
+                    "modules_exercised": nonempty, "modules_exercised_by_recorded_drivers": by_driver,
+                    "modules_not_exercised": empty, "drift_steps": res["drift"],
                     "clause_antecedents": ex_, "clauses": CLAUSES, "known_findings_hit": sorted(hits),
                     "checkpoints": {"every": every, "boundary": boundary}, "samples": samples})
         assumptions = ["TLC/SANY/CommunityModules Json", "Go toolchain, cosmos-sdk baseapp/module manager",
@@ -342,8 +357,8 @@ class GenesisCheck:
             return 1
         vlib.write_evidence(pid, tier, seed, cov, wall, 0, assumptions)
         missing = [r for r in ("asis", "zeroheight", "continuation") if ex_.get(r, 0) == 0]
-        if missing or not nonempty:
-            log(f"INCONCLUSIVE property={pid}: never exercised: {missing or 'any module with durable objects'}")
+        if missing or not by_driver:
+            log(f"INCONCLUSIVE property={pid}: never exercised: {missing or 'any module with durable objects in a recorded driver history'}")
             return 2
         return 0
 
